@@ -10,6 +10,7 @@ import (
 	"encoding/hex"
 	"fmt"
 	"math"
+	"strings"
 
 	sdk "github.com/cosmos/cosmos-sdk/types"
 
@@ -103,6 +104,10 @@ func coinsOf(shape string, n int64) sdk.Coins {
 		return sdk.Coins{sdk.NewCoin("foo", sdk.NewInt(n))}
 	case "two":
 		return sdk.Coins{sdk.NewCoin("foo", sdk.NewInt(n)), sdk.NewCoin(Denom, sdk.NewInt(n))}
+	case "huge":
+		// the largest amount a coin can carry (2^255 - 1): nobody holds it, and adding anything to it overflows
+		max, _ := sdk.NewIntFromString("57896044618658097711785492504343953926634992332820282019728792003956564819967")
+		return sdk.Coins{sdk.NewCoin(Denom, max)}
 	}
 	return sdk.Coins{} // none, empty
 }
@@ -117,6 +122,15 @@ func (c *Chain) addrs(names []string) []sdk.AccAddress {
 
 func (c *Chain) ridBytes(r [4]int64) []byte {
 	return types.GenerateRequestID(c.CtxID(int(r[0])), uint64(r[1]), r[2], int16(r[3]))
+}
+
+// pricingTextOf: the pricing text of a bind / update; the pseudo-denomination "HUGE" stands for a price of 5 * 10^76
+// units of the base denomination (a valid coin - below 2^255 - whose double already overflows the SDK's integers)
+func pricingTextOf(e *Ev) string {
+	if e.PrDenom == "HUGE" {
+		return `{"price":"5` + strings.Repeat("0", 76) + Denom + `"}`
+	}
+	return PricingText(e.Pr, e.PrDenom)
 }
 
 func outputFor(kind string, seq uint64) (result, output string) {
@@ -255,11 +269,11 @@ func (c *Chain) Apply(e *Ev) bool {
 		}
 	case "Bind":
 		out = c.Deliver(types.NewMsgBindService(e.Svc, c.A(e.Prov), coinsOf(e.DShape, e.Deposit),
-			PricingText(e.Pr, e.PrDenom), uint64(e.Qos), "{}", c.A(e.Signer)))
+			pricingTextOf(e), uint64(e.Qos), "{}", c.A(e.Signer)))
 	case "UpdateBinding":
 		pricing := ""
 		if e.HasPr {
-			pricing = PricingText(e.Pr, e.PrDenom)
+			pricing = pricingTextOf(e)
 		}
 		out = c.Deliver(types.NewMsgUpdateServiceBinding(e.Svc, c.A(e.Prov), coinsOf(e.DShape, e.Deposit),
 			pricing, uint64(e.Qos), "{}", c.A(e.Signer)))
